@@ -381,18 +381,33 @@ func (m *C15Mon) Wait(h *Hand, s *pokerface.GameState) {
 	if !closed && len(s.Status.Burned) > 0 {
 		h.Rep.Inc("class_open_with_burned_cards")
 	}
-	for v := -1; v < len(s.Players); v++ {
+	// viewers: the observer (-1), every seat, and player views asked for an index that is not in the
+	// hand (a table member who is not dealt in has game index -1): these must see no more than an observer
+	n := len(s.Players)
+	viewers := []int{-1}
+	for v := 0; v < n; v++ {
+		viewers = append(viewers, v)
+	}
+	viewers = append(viewers, -100, -101, -102) // AsPlayer(-1), AsPlayer(n), AsPlayer(n+5)
+	for _, v := range viewers {
 		cl := cloneGS(s)
 		exp := cloneGS(s)
 		who := "observer"
-		if v < 0 {
+		switch {
+		case v == -1:
 			cl.AsObserver()
-		} else {
+		case v <= -100:
+			idx := map[int]int{-100: -1, -101: n, -102: n + 5}[v]
+			cl.AsPlayer(idx)
+			who = fmt.Sprintf("non-participant(AsPlayer(%d))", idx)
+			h.Rep.Inc("non_participant_views")
+			v = -1
+		default:
 			cl.AsPlayer(v)
 			who = fmt.Sprintf("seat%d", v)
 		}
 		h.Rep.Inc("oracle_evaluations")
-		cause := fmt.Sprintf("viewer=%s,closed=%v", map[bool]string{true: "observer", false: "player"}[v < 0], closed)
+		cause := fmt.Sprintf("viewer=%s,closed=%v", strings.SplitN(strings.TrimRight(who, "0123456789"), "(", 2)[0], closed)
 		b, _ := json.Marshal(cl)
 		allowed := map[string]bool{}
 		for _, x := range s.Status.Board {
